@@ -157,3 +157,4 @@ mod tests {
         assert_eq!(RootRelativePath::try_from(Path::new("one/two/three")), Ok(RootRelativePath { inner: "one/two/three".to_string() }));
     }
 }
+#[cfg(rjrssync_verif)] pub(crate) mod verif_hooks { include!(concat!(env!("RJRSSYNC_VERIF_HARNESS"), "/hooks_root_relative_path.rs")); }
